@@ -248,8 +248,9 @@ CLAIMED["C13"] = dict(
          "function of the seed on every platform and optimisation level; all indices are in bounds; the full state round-trips through a "
          "restart file; every seed given to a RandomGenerator constructor or set_seed anywhere in the library is a function of the input "
          "(no clock, cycle-counter, pid, address or rand() value flows into it), the structural half of 'same seed => identical output'. "
-         "NOT decided: that the stream equals the published ranlxd2 sequence (no reference on disk), that different seeds "
-         "give different streams, byte-identical snapshots of whole runs.",
+         "The seed -> 31-bit pattern map in front of the bit generator is injective on 0 .. 2^31-1 (0 treated as 1). "
+         "NOT decided: that the stream equals the published ranlxd2 sequence (no reference on disk), that different bit "
+         "patterns give different streams, byte-identical snapshots of whole runs.",
     note="Trusted: clang, AST export, the 600-line abstract interpreter (cmiv/absint.py), IEEE-754 binary64 semantics.")
 
 CLAIMED["C17"] = dict(
